@@ -1,7 +1,12 @@
 package props
 
 import (
+	"fmt"
+	"go/token"
+	"go/types"
+	"reflect"
 	"regexp"
+	"sort"
 	"strings"
 
 	"golang.org/x/tools/go/ssa"
@@ -20,6 +25,7 @@ func runC02Gaps2(c *eng.Ctx) {
 	c02gPathTableVerdicts(c)
 	c02gHandAuthenticatedEndpoints(c)
 	c02gCacheKeyInjective(c)
+	c02gStanzaWriterReader(c)
 }
 
 func c02gOriginKinds(v ssa.Value) []string {
@@ -507,4 +513,251 @@ func c02MaySinks(f *ssa.Function, pat string) []ssa.Instruction {
 		}
 	}
 	return out
+}
+
+// C02.11: writer/reader agreement on a policy stanza. Every field of
+// policy.PathRules that NewACL READS to decide whether and how a stanza applies
+// (the table is derived from the reads) is written by the parser (parsePaths and
+// its closures), or is an explicitly tagged HCL field filled by the decode of the
+// stanza: a field that is read but never written is always zero — for Expiration
+// "never expires", so an expired stanza keeps granting while its policy sits in
+// the cache (seed C02-g). A field F that is parsed from a raw attribute FRaw
+// (Expiration / ExpirationRaw) is stored from a parse of that attribute, and once
+// the attribute is present the stanza is appended to the policy only after that
+// store. On the reader side the merge of a stanza into the ACL lies behind "no
+// expiration OR not yet expired", tested on the stanza's Expiration.
+func c02gStanzaWriterReader(c *eng.Ctx) {
+	reader := c.Fn("policy.NewACL")
+	writer := c.Fn("policy.parsePaths")
+	if reader == nil || writer == nil {
+		return
+	}
+	named := c.P.NamedType("policy.PathRules")
+	if named == nil {
+		c.Unresolved("policy.PathRules")
+		return
+	}
+	st, ok := named.Underlying().(*types.Struct)
+	if !ok {
+		c.Unresolved("policy.PathRules (struct)")
+		return
+	}
+	fieldIdx := map[*types.Var]int{}
+	byName := map[string]*types.Var{}
+	for i := 0; i < st.NumFields(); i++ {
+		fieldIdx[st.Field(i)] = i
+		byName[st.Field(i).Name()] = st.Field(i)
+	}
+	inTop := func(top *ssa.Function) []*ssa.Function {
+		var out []*ssa.Function
+		for _, fn := range c.P.Funcs {
+			if eng.TopFunc(fn) == top && len(fn.Blocks) > 0 {
+				out = append(out, fn)
+			}
+		}
+		return out
+	}
+	// ---- reads of the reader (a FieldAddr that is only stored through is a write)
+	read := map[*types.Var]token.Pos{}
+	for _, fn := range inTop(reader) {
+		for _, in := range eng.Instrs(fn, func(ssa.Instruction) bool { return true }) {
+			var fv *types.Var
+			isRead := false
+			switch x := in.(type) {
+			case *ssa.FieldAddr:
+				fv = eng.FieldVar(x)
+				if refs := x.Referrers(); refs != nil {
+					for _, r := range *refs {
+						if s, isStore := r.(*ssa.Store); isStore && s.Addr == ssa.Value(x) {
+							continue
+						}
+						if _, dbg := r.(*ssa.DebugRef); dbg {
+							continue
+						}
+						isRead = true
+					}
+				}
+			case *ssa.Field:
+				fv, isRead = eng.FieldVar(x), true
+			}
+			if fv == nil || !isRead {
+				continue
+			}
+			if fv.Origin() != nil {
+				fv = fv.Origin()
+			}
+			if _, mine := fieldIdx[fv]; mine {
+				if _, seen := read[fv]; !seen {
+					read[fv] = in.Pos()
+				}
+			}
+		}
+	}
+	c.Clause("R6", "C02.11")
+	if !c.Floor(reader, "PathRules fields read by NewACL", len(read), 4) {
+		return
+	}
+	// ---- writers in the parser
+	stores := map[*types.Var][]*ssa.Store{}
+	for _, fn := range inTop(writer) {
+		for _, s := range eng.Stores(fn, `.`) {
+			if fa, ok := s.Addr.(*ssa.FieldAddr); ok {
+				fv := eng.FieldVar(fa)
+				if fv != nil && fv.Origin() != nil {
+					fv = fv.Origin()
+				}
+				if _, mine := fieldIdx[fv]; mine {
+					stores[fv] = append(stores[fv], s)
+				}
+			}
+		}
+	}
+	decodes := false
+	for _, fn := range inTop(writer) {
+		for _, d := range eng.Calls(fn, `hashicorp/hcl\.DecodeObject$`) {
+			if a := d.Common().Args; len(a) > 0 {
+				if ok, _, _ := eng.OriginsMatch(a[0], `^alloc:`, `^freevar:`); ok || strings.Contains(a[0].Type().String(), "PathRules") {
+					decodes = true
+				}
+			}
+		}
+	}
+	var names []string
+	for fv := range read {
+		names = append(names, fv.Name())
+	}
+	sort.Strings(names)
+	nStored := 0
+	for _, n := range names {
+		fv := byName[n]
+		site := "stanza field " + n + " read by NewACL is written by the parser"
+		tag := reflect.StructTag(st.Tag(fieldIdx[fv])).Get("hcl")
+		switch {
+		case len(stores[fv]) > 0:
+			nStored++
+			c.OK(writer, site, stores[fv][0].Pos(), fmt.Sprintf("%d store(s) in parsePaths", len(stores[fv])))
+		case decodes && tag != "" && tag != "-":
+			c.OK(writer, site, writer.Pos(), "filled by the HCL decode of the stanza (hcl:\""+tag+"\")")
+		default:
+			c.Violation(writer, site, read[fv], "NewACL reads PathRules."+n+" but parsePaths never stores it (and the HCL decode does not fill it): it is always the zero value, so the decision that depends on it ("+map[bool]string{true: "the stanza never expires", false: "see the read"}[n == "Expiration"]+") is taken on a constant", nil)
+		}
+	}
+	c.Floor(writer, "read stanza fields stored by parsePaths", nStored, 4)
+
+	// ---- a field parsed from its raw attribute: value provenance and order before the stanza is appended
+	var appends []ssa.Instruction
+	for _, s := range eng.Stores(writer, `.`) {
+		if a, ok := s.Val.(*ssa.Alloc); ok {
+			if pt, ok := a.Type().Underlying().(*types.Pointer); ok && types.Identical(pt.Elem(), named) {
+				appends = append(appends, s)
+			}
+		}
+	}
+	for _, n := range names {
+		raw := byName[n+"Raw"]
+		fv := byName[n]
+		if raw == nil || len(stores[fv]) == 0 {
+			continue
+		}
+		c.Clause("R5", "C02.11")
+		for _, s := range stores[fv] {
+			okProv := false
+			var from []string
+			for _, o := range eng.Origins(s.Val) {
+				from = append(from, o.Kind+":"+o.Desc)
+				var call *ssa.Call
+				switch v := o.Val.(type) {
+				case *ssa.Extract:
+					call, _ = v.Tuple.(*ssa.Call)
+				case *ssa.Call:
+					call = v
+				}
+				if call == nil {
+					okProv = false
+					break
+				}
+				okProv = false
+				for _, a := range call.Call.Args {
+					for {
+						if mi, ok := a.(*ssa.MakeInterface); ok {
+							a = mi.X
+							continue
+						}
+						if ct, ok := a.(*ssa.ChangeType); ok {
+							a = ct.X
+							continue
+						}
+						break
+					}
+					if ld, isLoad := a.(*ssa.UnOp); isLoad && ld.Op == token.MUL {
+						if rf := eng.FieldVar(ld.X); rf != nil && (rf == raw || rf.Origin() == raw) {
+							okProv = true
+						}
+					}
+				}
+				if !okProv {
+					break
+				}
+			}
+			site := "stanza field " + n + " is parsed from the stanza's " + raw.Name()
+			if okProv {
+				c.OK(eng.TopFunc(s.Parent()), site, s.Pos(), strings.Join(from, ", "))
+			} else {
+				c.Violation(eng.TopFunc(s.Parent()), site, s.Pos(), "PathRules."+n+" is stored from "+strings.Join(from, ", ")+", not from a parse of the stanza's "+raw.Name(), nil)
+			}
+		}
+		c.Clause("R4", "C02.11")
+		present := eng.CondEdges(writer, `^0 < len\(.*\.`+regexp.QuoteMeta(raw.Name())+`\)$`, true)
+		site := "on{" + raw.Name() + " present} " + n + " stored before the stanza is appended"
+		var ins []ssa.Instruction
+		for _, s := range stores[fv] {
+			if s.Parent() == writer {
+				ins = append(ins, s)
+			}
+		}
+		switch {
+		case len(present) == 0 || len(appends) == 0:
+			c.Undecided(writer, site, writer.Pos(), "the test for a present "+raw.Name()+" or the append of the stanza to the policy was not found (moved? the rule cannot be evaluated)")
+		default:
+			if h := eng.Reach(eng.Query{Fn: writer, StartEdges: present, Barriers: ins, Target: eng.IsTarget(appends)}); h != nil {
+				c.Violation(writer, site, h.Instr.Pos(), "a stanza with an "+raw.Name()+" attribute can be appended to the policy without "+n+" having been stored", h.Witness)
+			} else {
+				c.OK(writer, site, appends[0].Pos(), "every path from the attribute-present edge to the append passes the store")
+			}
+		}
+	}
+
+	// ---- reader side: a stanza is merged into the ACL only while it has not expired
+	if exp := byName["Expiration"]; exp != nil {
+		c.Clause("R2", "C02.11")
+		var sinks []ssa.Instruction
+		sinks = append(sinks, c02MaySinks(reader, `go-radix\.Tree\)\.Insert$`)...)
+		for _, in := range eng.Instrs(reader, func(in ssa.Instruction) bool { _, ok := in.(*ssa.MapUpdate); return ok }) {
+			sinks = append(sinks, in)
+		}
+		isExp := func(v ssa.Value) bool {
+			_, ok := nfFieldRead(v, exp)
+			return ok
+		}
+		g := eng.Guard{Desc: "stanza Expiration is zero OR now is not after it"}
+		nz, na := 0, 0
+		for _, cl := range eng.Calls(reader, `^time\.\(Time\)\.IsZero$`) {
+			if v, ok := cl.(ssa.Value); ok && isExp(cl.Common().Args[0]) {
+				nz++
+				g.Edges = append(g.Edges, eng.BoolEdges(v, true)...)
+			}
+		}
+		for _, cl := range eng.Calls(reader, `^time\.\(Time\)\.After$`) {
+			a := cl.Common().Args
+			if v, ok := cl.(ssa.Value); ok && len(a) == 2 && isExp(a[1]) {
+				if okNow, _, _ := eng.OriginsMatch(a[0], `^call:time\.Now$`); okNow {
+					na++
+					g.Edges = append(g.Edges, eng.BoolEdges(v, false)...)
+				}
+			}
+		}
+		if c.Floor(reader, "insertions into the ACL", len(sinks), 4) && c.Floor(reader, "tests of the stanza's Expiration (IsZero, now.After)", min(nz, na), 1) {
+			c.Cut(reader, "stanza merged into the ACL", sinks, g, nil)
+		}
+	}
 }
